@@ -8,21 +8,22 @@ See Also:
 
 from __future__ import annotations
 
+from base64 import b64decode, b64encode
+
 __all__ = ['modutf7_encode', 'modutf7_decode']
 
 
 def _modified_b64encode(src: str) -> bytes:
-    # Inspired by Twisted Python's implementation:
-    #   https://twistedmatrix.com/trac/browser/trunk/LICENSE
-    src_utf7 = src.encode('utf-7')
-    return src_utf7[1:-1].replace(b'/', b',')
+    # The utf-7 codec cannot be used here: it writes characters such as CR,
+    # LF and TAB directly instead of base64 encoding them.
+    src_utf16 = src.encode('utf-16-be', 'surrogatepass')
+    return b64encode(src_utf16).rstrip(b'=').replace(b'/', b',')
 
 
 def _modified_b64decode(src: bytes) -> str:
-    # Inspired by Twisted Python's implementation:
-    #   https://twistedmatrix.com/trac/browser/trunk/LICENSE
-    src_utf7 = b'+%b-' % src.replace(b',', b'/')
-    return src_utf7.decode('utf-7')
+    src_b64 = src.replace(b',', b'/') + b'=' * (-len(src) % 4)
+    src_utf16 = b64decode(src_b64, validate=True)
+    return src_utf16.decode('utf-16-be', 'surrogatepass')
 
 
 def modutf7_encode(data: str) -> bytes:
